@@ -75,7 +75,7 @@ def o_struct(case):
             raise Fail("routing", f"{ident}: parsed identity {m.identity!r}")
         got = [k for k, _ in pub(m)]
         want = [k for k, _ in w.expected()]
-        if got != want:
+        if sorted(got) != sorted(want):
             raise Fail("routing", f"{ident}: the parser is not using this definition (attributes {got[:8]}.. expected {want[:8]}..)")
         evals += 1
     F = model.tables()["F"]
